@@ -103,7 +103,7 @@ claim('C13',
        'the control-flow abstraction regenerated from clang\'s AST is accepted by a checker verified in Coq: on EVERY path each access to mutable container state (fields written outside the constructor, and nodes reached through them) happens at lock depth >= 1, '
        'there is a single critical section, and the call ends at depth 0 (C13_discipline). (2) Generic theorem (C13_linearizable): for calls with that discipline, after any interleaving at the granularity of lock operations and single shared accesses the final state and every '
        'call\'s result equal those of the calls run one at a time in order of first lock acquisition - no lost, duplicated or half-applied update; a walk under an outer lock() is one critical section, hence one snapshot. (3) The sequential meaning of the critical sections is C01-C10. '
-       'Pre-lock reads of the element count in qvector addat/addlast/toarray and qlist toarray/tostring were repaired in /repo. Search engines for a failing schedule: multiset stress on plain and ThreadSanitizer builds.',
+       'Pre-lock reads of the element count in qvector addat/addlast/toarray and qlist toarray/tostring were repaired in /repo. Search engines for a failing schedule: multiset stress on plain and ThreadSanitizer builds. C13_no_state_outside_containers: the container sources define no variable with static storage duration (file scope, function-local static, thread-local; list regenerated from clang\'s AST) other than the tree table\'s three statistics counters, so no operation keeps state that the container\'s lock does not protect; the handoff scenario (consecutive operations on one list / vector made by different long-lived threads must answer as one thread alone) searches for the concrete failing sequence.',
   note='Partial by nature: lock-level model under sequential consistency; real memory-model effects, pthread internals and timing are outside it. The link between layer 1 and layer 2 is a theorem (C13_bridge, C13_end_to_end) whose explicit hypothesis `realizes` says that every execution path of a call is, up to accesses to immutable fields, a path of its translated abstraction - i.e. that the translator read the C text faithfully; that hypothesis is what the translator and the run-time search engines stand for. '
        'Fresh blocks allocated by the call itself, caller-owned arguments, and the node qlisttbl_removeobj has already unlinked are treated as private (reviewed rules in gen_lockast.py). size()/datasize() read the count without the lock and are outside the operation mix.',
   technique='source-to-Coq translation of lock/access structure + verified path checker + generic Rocq linearizability theorem; TSan/multiset stress as failing-schedule search',
